@@ -105,9 +105,10 @@ def parse_out(line):
 
 
 def repeated_rename_conflict(line):
-    """does a conflict copy (model ids 4k+1 / 4k+2) get REPLACED during this run?  Conflict file names carry a timestamp with
-    one-second resolution: the model names them by (path, side) only, i.e. it describes renames that fall into one second and
-    overwrite the earlier copy; the real run keeps both when the seconds differ.  Such histories depend on the wall clock."""
+    """does a conflict copy (model ids 16 p + 4 k + side) get REPLACED during this run?  Before the repair `fix: bisync never renames
+    a conflicting file onto an existing conflict copy` this happened whenever two rename conflicts on one path fell into one
+    second; now every conflict takes the first unused name and the harness numbers the copies by their rank, so no history
+    depends on the wall clock any more.  A replaced copy is reported as a lost version."""
     snaps = parse_out(line)
     if not snaps:
         return False
@@ -234,7 +235,8 @@ def merge_oracle(history, snaps):
                         why = "conflict not resolved as the %s strategy prescribes (expected source's version)" % strat
                     elif exp == "D" and not (cont(ps_) == cont(d) and cont(pd_) == cont(d)):
                         why = "conflict not resolved as the %s strategy prescribes (expected dest's version)" % strat
-                    elif exp == "R" and not (ps_ is None and pd_ is None and cont(pS.get(4 * p + 1)) == cont(s) and cont(pD.get(4 * p + 2)) == cont(d)):
+                    elif exp == "R" and not (ps_ is None and pd_ is None and any(cont(pS.get(16 * p + 4 * k_ + 1)) == cont(s) for k_ in range(4))
+                                             and any(cont(pD.get(16 * p + 4 * k_ + 2)) == cont(d) for k_ in range(4))):
                         why = "conflict not resolved as the %s strategy prescribes (expected both kept under conflict names)" % strat
             if why:
                 # the side whose CONTENT is the last common version may still have been touched or rewritten with the same
